@@ -1004,6 +1004,12 @@ func (c *FCtx) bitOr(st *State, l, r *Term, k intKind, le, re ast.Expr) *Term {
 		for _, s := range []uint{4, 8, 16, 24} {
 			cands[s] = true
 		}
+		if k.bits == 64 {
+			// byte-wise assembly of a 64-bit word (x |= uint64(b) << (8*i)): all byte boundaries
+			for _, s := range []uint{32, 40, 48, 56} {
+				cands[s] = true
+			}
+		}
 	}
 	for s := range cands {
 		p := Pow2(s)
